@@ -262,7 +262,7 @@ func c01Run(t *testing.T, run *Run, sc c01Scenario) {
 	// ---------- oracle ----------
 	run.Eval()
 	fail := func(sig, format string, a ...any) {
-		run.Violate(sig, fmt.Sprintf(format, a...), sc, w.Trace(400))
+		run.Violate(sig, fmt.Sprintf(format, a...), sc, func() []string { return w.Trace(400) })
 	}
 	if cmd.Panic != "" {
 		fail("panic", "command panicked: %s", cmd.Panic)
